@@ -6,6 +6,7 @@ import (
 	"fmt"
 	"reflect"
 	"sort"
+	"strings"
 	"time"
 
 	mod "github.com/craterdog/go-collection-framework/v4"
@@ -352,6 +353,9 @@ func assocPair[K comparable, V any](r *engine.Rec, kname, vname string, k K, v V
 		out, _, _ := solo(func() { a = mod.Association[K, V](withNotation(np, k, v)...) })
 		r.Evals++
 		same := ""
+		if strings.Contains(kname, "(") || strings.Contains(vname, "(") {
+			same = " (zero-valued key or value)"
+		}
 		if kname == vname {
 			same = " (identical key and value types)"
 		}
@@ -396,7 +400,23 @@ func associations(r *engine.Rec) {
 	for _, kn := range []string{"int64", "uint64", "float64", "string", "rune", "bool", "any"} {
 		pairK(kn)
 	}
+	zeroes(r)
 	r.Sample(assocCase{"string", "string", "absent"})
+}
+
+// zero-valued keys and values are keys and values too
+func zeroes(r *engine.Rec) {
+	assocPair[string, string](r, "string(empty)", "string(empty)", "", "")
+	assocPair[string, int64](r, "string(empty)", "int64(zero)", "", int64(0))
+	assocPair[int64, string](r, "int64(zero)", "string(empty)", int64(0), "")
+	assocPair[string, string](r, "string", "string(empty)", "k", "")
+	assocPair[string, string](r, "string(empty)", "string", "", "v")
+	assocPair[int64, int64](r, "int64(zero)", "int64(zero)", int64(0), int64(0))
+	assocPair[bool, bool](r, "bool(false)", "bool(false)", false, false)
+	assocPair[rune, float64](r, "rune(zero)", "float64(zero)", rune(0), 0.0)
+	assocPair[any, any](r, "any(empty string)", "any(zero int)", any(""), any(int64(0)))
+	assocPair[string, any](r, "string", "any(empty string)", "k", any(""))
+	assocPair[uint64, uint64](r, "uint64(zero)", "uint64(zero)", uint64(0), uint64(0))
 }
 
 func eachV[K comparable](r *engine.Rec, kname string, k K) {
